@@ -12,6 +12,9 @@ use serde::{Deserialize, Serialize};
 pub struct Side {
     pub av1: Option<SeqHdr>,
     pub vp9: Option<Vp9Fields>,
+    /// index of the op the side information describes
+    #[serde(default)]
+    pub op: usize,
 }
 
 fn v(sig: String, detail: String) -> Violation {
@@ -342,7 +345,7 @@ pub fn check_file(a: &Analysis, side: &Side, obs: &mut Obs) -> Vec<Violation> {
         // the generator's side information describes op 0; if another frame became the first
         // accepted one, fall back to the model-side parse of that frame
         let none = Side::default();
-        let side = if first.op == 0 { side } else { &none };
+        let side = if first.op == side.op { side } else { &none };
         out.extend(check_visual(&vt.entry, a.h.cfg.vcodec, a.h.cfg.width, a.h.cfg.height, Some(key), None, side, "file", obs));
     }
     if let (Some(at), Some(ac)) = (a.audio_track(), a.h.cfg.audio_effective()) {
